@@ -25,6 +25,7 @@ func init() {
 		clientCloseRule(c, "C12/CLIENT-CLOSE")
 		chanOpsRule(c, "C12/CHAN-OPS")
 		onErrorCancelRule(c, "C12/ONERROR-CANCEL")
+		initBeforePublishRule(c, "C12/INIT-BEFORE-PUBLISH", "client", 1)
 		noPanicFor(c, "C12")
 	}
 }
